@@ -75,8 +75,18 @@ def contains_contract(eng):
     Boolean.  (func is checked on an arbitrary node.)"""
 
     def contains(e, node, func):
+        from pyvc.verify import probe
         p = sym.cur()
-        e.call(func, [nm.lazy_node(e, p, 'sub')], {})
+        # the predicate is probed on an arbitrary node (all its paths) without
+        # multiplying the paths of the caller
+        for o in probe(lambda: e.call(
+                func, [nm.lazy_node(e, sym.cur(), 'sub')], {})):
+            if o.kind == 'raise':
+                # continue the caller's path with the sub-node on which the
+                # predicate fails (keeps the counterexample concrete)
+                for c in o.extra_pc:
+                    p.assume(c)
+                raise PyRaise(o.value, o.where)
         return mk.sbool(p, 'contains')
 
     eng.overrides['ddsmt.nodes.contains'] = contains
@@ -501,7 +511,7 @@ def contracts(tier):
                      assumptions=A_NODES + [
                          'nodes.contains used through its contract (applies '
                          'the predicate to sub-nodes only)'],
-                     replay=node_replay(
+                     replay=search_replay(
                          f'mutators_{th}.is_relevant(node)',
                          imports=f'from ddsmt import mutators_{th}')))
     cs.append(
@@ -551,4 +561,8 @@ def contracts(tier):
                  assumptions=['__main__.main() abstracted: returns 0 or 1; '
                               'a script that ends without sys.exit() exits '
                               'with status 0']))
+    # exception freedom / containment obligations (C04/...) of the strategy
+    # functions, workers and cli are part of the strategy contracts
+    from . import strategies
+    cs.extend(strategies.all_contracts(tier))
     return cs
